@@ -347,6 +347,11 @@ CATALOGUE: dict[str, dict] = {
     "while-stmt": {"s": ["while v < {P}:", "    v += 1"]},
     "for-range": {"s": ["for k{P} in range(3):", "    mon.write(1)"]},
     "try-except": {"s": ["try:", "    mon.write(1)", "except Exception as e{P}:", "    mon.write(2)"], "line": 2},
+    "serial-write-hash-dq": {"s": ["mon.write(\"5\\\" bolt #{P}\")"]},
+    "serial-write-hash-sq": {"s": ["mon.write('it\\'s #{P}')"]},
+    "if-hash-literal": {"s": ["if \"\\\"#\" != \"q{P}\":", "    mon.write(1)"]},
+    "if-first-assign-and-for": {"s": ["if v == 0:", "    lvq = 2", "    for k{P} in range(2):", "        mon.write(3)"], "line": 2},
+    "else-first-assign-and-while": {"s": ["if v == 1:", "    nwq = 1", "else:", "    while v < {P}:", "        v += 1"], "line": 3},
     "break": {"s": ["break"], "probe": "effect"},
     "continue": {"s": ["continue"], "probe": "effect"},
     "return-value": {"s": ["return {P}"]},
